@@ -330,7 +330,7 @@ class Parser:
             return self.shared_logger
         return None   # default argument of get_fcp
 
-    def parse(self, api, arg, logger_mode, timeout=20):
+    def parse(self, api, arg, logger_mode, timeout=15):
         """api: 'file' (arg = path) | 'string' (arg = text).
         Returns dict(outcome=ok|err|exception|hang|bad_result, result, logger, detail)."""
         lg = self.logger(logger_mode)
